@@ -350,3 +350,42 @@ func H01_host() {
 	}
 	sv.Reach("accepted")
 }
+
+// H01_overloads: preservation for calls to generic host overloads whatever the
+// sequence of registrations - the same overload registered more than once
+// (two plug-ins that both bring it along), before, between or after the
+// others: the value of `describe(v)` has the type the checker inferred, on
+// every back end.
+func H01_overloads() {
+	a := types.TyVar("a")
+	onList := val.Fun(types.Fun("describe", []*types.Type{types.List(a)}, types.Str), func(args ...*val.Val) *val.Val { return val.Str("a list") })
+	onMap := val.Fun(types.Fun("describe", []*types.Type{types.Map(types.Str, a)}, types.Num), func(args ...*val.Val) *val.Val { return val.Num(42) })
+	onAny := val.Fun(types.Fun("describe", []*types.Type{a}, types.Bool), func(args ...*val.Val) *val.Val { return val.True })
+	fs := []*val.Val{onList, onMap, onAny}
+	seqs := [][]int{{0, 1, 2}, {0, 0, 1, 2}, {0, 1, 1, 2}, {0, 1, 2, 2}, {1, 1, 0, 2}, {0, 1, 0, 2}, {1, 0, 0, 1, 2}}
+	e := NewEngine()
+	for _, k := range seqs[sv.Choice("registrations", len(seqs))] {
+		e.Register(fs[k])
+	}
+	tys := []*types.Type{types.List(types.Num), types.Map(types.Str, types.Num), types.Num}
+	want := []*types.Type{types.Str, types.Num, types.Bool}
+	k := sv.Choice("argument", len(tys))
+	names := []string{"v"}
+	expr, ty, cls := e.Front("describe(v)", map[string]*types.Type{"v": tys[k]}, names)
+	sv.Assert("accepted", cls == "ok")
+	if cls != "ok" {
+		return
+	}
+	sv.Assert("resolves-to-the-first-registered-overload-that-instantiates", RefTypeEq(ty, want[k]))
+	MaxLenQuick = 1
+	vals := map[string]*val.Val{"v": AnyVal(tys[k], "v")}
+	MaxLenQuick = 3
+	res, rc := runAll(e, expr, vals, names)
+	for b := 0; b < NBackends; b++ {
+		sv.Assert("evaluates:"+BackendNames[b], rc[b] == "ok")
+		if rc[b] == "ok" {
+			sv.Assert("value-has-the-inferred-type:"+BackendNames[b], RefWellTyped(res[b], ty) == "")
+		}
+	}
+	sv.Reach("evaluated")
+}
